@@ -31,7 +31,8 @@ fn var(v: &V) -> Option<Value> {
             let (id, sfx) = ident(i);
             let full = format!("{}{}", id, sfx);
             if BUILTINS.contains(&full.as_str()) {
-                return call(&full, &[]);
+                // a reserved name without arguments: outside the model
+                return None;
             }
             let l = id.chars().next()?.to_string();
             Some(json!({"k":"var","l":l,"id":id,"sfx":sfx}))
@@ -54,7 +55,13 @@ fn var(v: &V) -> Option<Value> {
 
 fn call(f: &str, args: &[E]) -> Option<Value> {
     match f {
-        "POS" => return Some(json!({"k":"pos"})),
+        // POS(x): the argument is a dummy; only a numeric literal is modelled
+        "POS" => {
+            return match args {
+                [E::Integer(..)] | [E::Single(..)] | [E::Double(..)] => Some(json!({"k":"pos"})),
+                _ => None,
+            }
+        }
         "RND" | "DATE$" | "TIME$" | "INKEY$" => return None, // outside the model
         _ => {}
     }
@@ -223,7 +230,15 @@ pub fn stmt(s: &S) -> Option<Value> {
         S::Let(_, v, e) => json!({"k":"let","v":var(v)?,"e":expr(e)?,"kw":false}),
         S::Load(..) | S::Save(..) => return None,
         S::Mid(_, v, p, n, e) => json!({"k":"mid","v":var(v)?,"p":expr(p)?,"n":expr(n)?,"non":false,"e":expr(e)?}),
-        S::Next(_, vs) => json!({"k":"next","vs":vars(vs)?}),
+        S::Next(_, vs) => {
+            // a NEXT without a name is parsed as one variable with an empty name
+            let bare = matches!(&vs[..], [V::Unary(_, Ident::Plain(s))] if s.is_empty());
+            if bare {
+                json!({"k":"next","vs":[]})
+            } else {
+                json!({"k":"next","vs":vars(vs)?})
+            }
+        }
         S::OnGoto(_, e, ns) | S::OnGosub(_, e, ns) => {
             let k = if matches!(s, S::OnGoto(..)) { "ongoto" } else { "ongosub" };
             let n: Option<Vec<i64>> = ns.iter().map(linenum).collect();
@@ -272,7 +287,11 @@ pub fn command(text: &str) -> Option<Value> {
     let line = Line::new(text);
     let ast = line.ast().ok()?;
     let stmts: Option<Vec<Value>> = ast.iter().map(stmt).collect();
-    let stmts = stmts?;
+    let mut stmts = stmts?;
+    if stmts.is_empty() && !line.is_empty() {
+        // a line holding only a remark: the parser yields no statement for it, the line exists all the same
+        stmts.push(json!({"k":"rem","txt":"","cp":[]}));
+    }
     Some(match line.number() {
         Some(n) => json!({"k":"line","n":n,"stmts":stmts}),
         None => {
